@@ -152,6 +152,8 @@ TABLE = {
          "            f = select(f, data, x)(np.sum)\n            aggregate.default = 0\n            return f(data[x],\n                     data._group_,\n                     drop_na=(\n                         data[x].is_na().any()),", V, "SIB-7"),
     ],
     "C08": [
+        ("median-stays-compiled-with-kept-na (D36 reverted)", AG, "            if not drop_na and data[x].is_na().any():\n                # Numba's np.median doesn't propagate missing values.\n                f = generic(np.median)\n", "", V, "NA-prop"),
+        ("median-python-path-whenever-na-kept", AG, "            if not drop_na and data[x].is_na().any():\n                # Numba's np.median", "            if not drop_na:\n                # Numba's np.median", S, None),
         ("timedelta-readmitted-to-numba (D35 reverted)", AG, "        np.issubdtype(x.dtype, np.datetime64) or\n", "        np.issubdtype(x.dtype, np.datetime64) or\n        np.issubdtype(x.dtype, np.timedelta64) or\n", V, "UNIFY"),
         ("nth-python-kernel-exact-bounds-silent", AG, "        try:\n            yield xg[index]\n        except IndexError:\n            yield None",
          "        yield xg[index] if -len(xg) <= index < len(xg) else None", S, None),
